@@ -282,10 +282,10 @@ def replay(w):
 
 
 TECHNIQUE = "Lean 4 proof: completed entries are frozen under EVERY continuation of the event stream (invariant over the handler machine model, induction over events) + event-level correspondence on damaged documents + damage-position sweep against the loose-mode result"
-LEVEL_TEXT = ("Kernel-checked on M-mixin (stage 1): completed_entries_frozen (for every state with no open entry and EVERY continuation of the event stream -- stray end "
+LEVEL_TEXT = ("Kernel-checked on M-mixin (stages 1-5: structural handlers, fallback, dates, text constructs, summary / content, link / id, categories / enclosures): entry_end_closes_entry (after </item> / </entry> the machine is NOT in an entry, whatever stale frames the content handlers left on the element stack), completed_entries_frozen (for every state with no open entry and EVERY continuation of the event stream -- stray end "
               "tags, unclosed elements, further entries, any handler-less vocabulary -- the entries complete at that point are still there unchanged), step_older / "
               "run_older (the invariant, per event and by induction), entries_never_lost. Tie: the model follows the real strict/loose machine event by event on "
               "damaged documents; sgmllib's prefix-stability under damage is validated on recorded event streams.")
-LEVEL_NOTE = ("Trusted: Lean kernel + standard axioms; the stage-1 model covers the generic machinery and structural handlers -- for the dedicated handlers the frozen-ness "
+LEVEL_NOTE = ("Trusted: Lean kernel + standard axioms; the model covers the generic machinery and 43 of the 107 handler names -- for the other dedicated handlers the frozen-ness "
               "is checked by the search (entries[:k] vs loose-mode result of the original) over the whole handled vocabulary; sgmllib tokenization; the re-read "
               "of the stream after a strict failure (C07).")
